@@ -10,7 +10,10 @@ RULE = ("random fully bifurcating trees (2-9 leaves quick, up to 14 thorough; ra
         "leaf set) x histories of 1-5 scoring calls on one tree object and its clones (Tree.clone(1), Tree(tree)), each call with its own "
         "matrix (DNA/RNA/nucleotide with IUPAC ambiguity codes, protein with B/Z/X, 10-state standard; 20%: matrices whose columns have their "
         "own state alphabets - fixed ones and custom 2-5 state alphabets with/without gap and missing-data states, in which '?', '-', 'X' "
-        "and the digits denote different sets (and indexes) in different columns - built through the API (several state_alphabets) or read "
+        "and the digits denote different sets (and indexes) in different columns; 30% of the custom columns use NESTED alphabets - "
+        "ambiguous / polymorphic states defined through other multistate symbols 2-4 levels deep (member_states= / nested NeXML members), "
+        "cells using the deepest codes most, the oracle and the model get the harness's own recursive expansion to fundamental states - "
+        "built through the API (several state_alphabets) or read "
         "from NeXML with one <states> per <char>; '?', '-', lower case and synonyms; 1-6 characters), "
         "gaps_as_missing both ways, weights None or 0..3 per character (12% of weighted calls: a list that is longer or shorter than the "
         "matrix), entry point parsimony_score / treescore.parsimony_score / "
@@ -147,13 +150,36 @@ def col_info(desc):
     if desc in ORACLE_ALPHABETS:
         fund, tab = ORACLE_ALPHABETS[desc]
         return fund, tab, True
-    gm = desc.startswith("cg=")
+    gm = desc.startswith("cg=") or desc.startswith("ng=")
     parts = desc[3:].split("~")
     fund = parts[0]
     tab = {c: frozenset(c) for c in fund}
     for a in parts[1:]:
-        tab[a[0]] = frozenset(a[1:])
+        if desc[0] == "n":
+            # NESTED alphabet (`ng=` / `nn=`): a member may itself be an earlier multistate symbol; the oracle's own recursive expansion
+            # down to the fundamental states (earlier entries are already fully expanded)
+            out = frozenset()
+            for mbr in a[1:]:
+                out |= tab[mbr]
+            tab[a[0]] = out
+        else:
+            tab[a[0]] = frozenset(a[1:])
     return fund, tab, gm
+
+
+def flat_desc(desc):
+    """the description handed to the model: a nested alphabet written out with fully expanded member lists (harness-side expansion; the
+    code is built from the NESTED definition)"""
+    if not (desc.startswith("ng=") or desc.startswith("nn=")):
+        return desc
+    fund, tab, gm = col_info(desc)
+    return ("cg=" if gm else "cn=") + "~".join([fund] + [a[0] + "".join(c for c in fund if c in tab[a[0]]) for a in desc[3:].split("~")[1:]])
+
+
+def flat_alph(alph):
+    if alph.startswith("cols:"):
+        return "cols:" + ";".join(flat_desc(d) for d in alph[5:].split(";"))
+    return alph
 
 
 def oracle_set(desc, gaps_as_missing, sym):
@@ -386,6 +412,13 @@ def make_alphabet(dendropy, desc):
         return dendropy.new_standard_state_alphabet()
     fund, tab, gm = col_info(desc)
     amb = [(a[0], a[1:]) for a in desc[3:].split("~")[1:]]
+    if desc[0] == "n":
+        sa = dendropy.StateAlphabet(fundamental_states=fund, no_data_symbol="?" if gm else None, gap_symbol="-" if gm else None)
+        for i, (sym, members) in enumerate(amb):
+            mk = sa.new_ambiguous_state if i % 2 == 0 else sa.new_polymorphic_state
+            mk(symbol=sym, member_states=[sa[m] for m in members])         # members may be multistates defined before: nesting
+        sa.compile_lookup_mappings()
+        return sa
     return dendropy.StateAlphabet(fundamental_states=fund, ambiguous_states=amb, no_data_symbol="?" if gm else None,
                                   gap_symbol="-" if gm else None)
 
@@ -532,7 +565,7 @@ def op_line(op):
         return "E %s %s %s %s %s" % (op["mat"], op["how"], op["bit"], op.get("idx", "-"), op.get("sym", op.get("syms")))
     w = "-" if op["weights"] is None else (",".join(str(x) for x in op["weights"]) or ".")
     rows = " ".join("%d =%s" % (bit, syms) for bit, syms in op["rows"])
-    return "S %d %s %d %s %s" % (op["obj"], op["alph"], 1 if op["gaps"] else 0, w, rows)
+    return "S %d %s %d %s %s" % (op["obj"], flat_alph(op["alph"]), 1 if op["gaps"] else 0, w, rows)
 
 
 def mask_of(indexes):
@@ -605,7 +638,7 @@ def run_case(ctx, dendropy, case, pending):
                 mats[op["mat"]] = {"m": build_matrix(dendropy, tns, op), "alph": op["alph"],
                                    "rows": [list(r) for r in op["rows"]], "scored": 0, "edited": 0}
                 midx.setdefault(op["mat"], len(midx))
-                model_ops.append("M %d %s %s" % (midx[op["mat"]], op["alph"], " ".join("%d =%s" % (b, sy) for b, sy in op["rows"])))
+                model_ops.append("M %d %s %s" % (midx[op["mat"]], flat_alph(op["alph"]), " ".join("%d =%s" % (b, sy) for b, sy in op["rows"])))
                 results.append("m")
             ent = mats[op["mat"]]
             w = "-" if op["weights"] is None else (",".join(str(x) for x in op["weights"]) or ".")
@@ -678,7 +711,7 @@ def run_case(ctx, dendropy, case, pending):
                 c = nscore % nch
                 desc = col_descs(op["alph"], nch)[c]
                 colsyms = "".join(syms[c] for _, syms in op["rows"])
-                sets_lines.append(("sets cols:%s %d =%s" % (";".join([desc] * len(colsyms)), 1 if op["gaps"] else 0, colsyms),
+                sets_lines.append(("sets cols:%s %d =%s" % (";".join([flat_desc(desc)] * len(colsyms)), 1 if op["gaps"] else 0, colsyms),
                                    set_shape([tsm[tns[bit]][c] for bit, _ in op["rows"]])))
     nontrivial = nscore >= 2 or base is not None
     ctx.case([toks, case["ops"]], nontrivial, sample=case,
@@ -768,10 +801,42 @@ def gen_symbols(rng, alph, nleaves, nchar):
     return ["".join(cols[c][i] for c in range(nchar)) for i in range(nleaves)]
 
 
+def gen_nested_desc(rng):
+    """a custom alphabet whose multistate symbols are defined through OTHER multistate symbols, 2-4 levels deep
+    (R = two states, P = R + a state, Q = P + a state or P + another pair, ...), with or without gap / missing-data states"""
+    k = rng.choice([3, 4, 4, 5, 5, 6])
+    fund = "".join(rng.sample("0123456789", k)) if rng.random() < 0.3 else "0123456789"[:k]
+    gm = rng.random() < 0.4
+    pool = list(fund)
+    rng.shuffle(pool)
+    names = list("RPQW")
+    amb = [names[0] + pool.pop() + pool.pop()]
+    depth = rng.choice([2, 3, 3, 4])
+    for lvl in range(1, depth):
+        members = [names[lvl - 1]]
+        if pool:
+            members.append(pool.pop())
+        elif lvl >= 2:
+            members.append(names[lvl - 2])
+        else:
+            members.append(rng.choice(fund))
+        if rng.random() < 0.3:
+            members.append(rng.choice(fund))
+        rng.shuffle(members)
+        amb.append(names[lvl] + "".join(members))
+    if rng.random() < 0.3:
+        amb.append("Y" + "".join(rng.sample(fund, 2)))                 # an ordinary flat code beside the nested ones
+    if not gm and rng.random() < 0.5:
+        amb.append("?" + names[depth - 1] + "".join(rng.sample(fund, rng.randint(1, 2))))
+    return ("ng=" if gm else "nn=") + "~".join([fund] + amb)
+
+
 def gen_col_desc(rng):
     r = rng.random()
     if r < 0.2:
         return rng.choice(["dna", "standard", "rna", "protein", "nucleotide"])
+    if r < 0.5:
+        return gen_nested_desc(rng)
     fund = "0123456789"[:rng.choice([2, 2, 3, 4, 4, 5])]
     if rng.random() < 0.25:
         fund = "".join(rng.sample("0123456789", len(fund)))       # the same symbol gets another index in this column
@@ -792,12 +857,14 @@ def gen_mixed_call(rng, bits, obj, extra_bits=()):
     nchar = rng.choice([2, 2, 3, 4, 5])
     pool = [gen_col_desc(rng) for _ in range(rng.choice([2, 2, 3]))]
     descs = [rng.choice(pool) for _ in range(nchar)]
-    route = "nexml" if all(d.startswith("cn=") for d in descs) and rng.random() < 0.6 else "api"
+    route = "nexml" if all(d.startswith("cn=") or d.startswith("nn=") for d in descs) and rng.random() < 0.6 else "api"
     allbits = list(bits) + list(extra_bits)
     cols = []
     for d in descs:
         fund, tab, gm = col_info(d)
         shared = [x for x in (["?", "-"] if gm else []) + [k for k in tab if len(tab[k]) > 1]]
+        if d[0] == "n":
+            shared += [k for k in "PQW" if k in tab] * 3                # cells use the deepest codes most
         base = rng.sample(list(fund), min(rng.choice([1, 2, 2, 3]), len(fund)))
         p = rng.choice([0.15, 0.3, 0.5]) if shared else 0
         cols.append([rng.choice(shared) if rng.random() < p else rng.choice(base) for _ in allbits])
@@ -1007,7 +1074,7 @@ def src_text(src, midx, pidx):
         return "map %d" % pidx[src["map"]]
     if "mat" in src:
         return "mat %d %d" % (midx[src["mat"]], 1 if src["gaps"] else 0)
-    return "lit %s %d %s" % (src["alph"], 1 if src["gaps"] else 0, " ".join("%d =%s" % (b, sy) for b, sy in src["rows"]))
+    return "lit %s %d %s" % (flat_alph(src["alph"]), 1 if src["gaps"] else 0, " ".join("%d =%s" % (b, sy) for b, sy in src["rows"]))
 
 
 def run_xcase(ctx, dendropy, case, pending):
@@ -1049,7 +1116,7 @@ def run_xcase(ctx, dendropy, case, pending):
         elif o == "M":
             mats[op["mat"]] = {"m": build_matrix(dendropy, tns, op), "alph": op["alph"], "rows": [list(r) for r in op["rows"]]}
             midx.setdefault(op["mat"], len(midx))
-            lines.append("M %d %s %s" % (midx[op["mat"]], op["alph"], " ".join("%d =%s" % (b, sy) for b, sy in op["rows"])))
+            lines.append("M %d %s %s" % (midx[op["mat"]], flat_alph(op["alph"]), " ".join("%d =%s" % (b, sy) for b, sy in op["rows"])))
             results.append("m")
         elif o == "E":
             ent = mats[op["mat"]]
